@@ -296,12 +296,20 @@ def run(ctx):
                                       reference_container=base[0], got=v, want=base[1], series=sn)
         # DBA over containers (purity of series and of the initial average is watched by the snapshot monitor)
         if it % 4 == 0 and equal:
+            from dtaidistance import dtw_cc as _cc
             for use_c in (False, True):
                 base = None
+                dmask = np.array([rng.random() < 0.6 for _ in range(n)], dtype=bool)
+                if not dmask.any():
+                    dmask[rng.randrange(n)] = True
+                nprob = rng.choice([0, 0, 2]) if use_c else 0
                 for cname in ("list_of_np", "matrix_C", "matrix_F", "matrix_strided"):
                     data = cols[cname][0]
                     try:
-                        avg = dtw_barycenter.dba_loop(data, c=np.array(ss[0], dtype=float), max_it=2, thr=None, use_c=use_c)
+                        if nprob:
+                            _cc.srand(12345)
+                        avg = dtw_barycenter.dba_loop(data, c=np.array(ss[0], dtype=float), max_it=2, thr=None, use_c=use_c,
+                                                      mask=dmask.copy(), nb_prob_samples=nprob)
                     except Exception as e:
                         ctx.violation("exception", fn="dba_loop", use_c=use_c, container=cname, error=repr(e)[:300], series=ss)
                         continue
